@@ -75,7 +75,7 @@ def _drive(args):
         kind, out_ = call(lambda: keymod.calculate_kcv(k16, ln))
         ev.append(pev('kcv', key=k16, n=ln, kind=kind, out=nib(out_) if kind == 'ok' else ()))
         parts = [bytes(r.randrange(256) for _ in range(16)) for _ in range(r.randrange(1, 5))]
-        variants = [parts, list(reversed(parts)), parts + [parts[0], parts[0]]]
+        variants = [parts, list(reversed(parts)), parts + [parts[0], parts[0]], parts + [parts[-1]]]
         if len(parts) > 2:
             variants.append(parts[1:] + parts[:1])
         mk = bytes(r.randrange(256) for _ in range((16, 24)[(tid // 2) % 2]))
